@@ -54,12 +54,22 @@ type chunkReader struct {
 	i       int
 	dataEOF bool
 	got     []int
+	stalls  int // (0, nil) reads before every read that delivers data (round E, review C17-3)
+	stalled int
 }
 
 func (c *chunkReader) Read(p []byte) (int, error) {
 	if len(c.b) == 0 {
 		return 0, io.EOF
 	}
+	// a reader may return (0, nil): "nothing happened", legal for io.Reader (discouraged);
+	// bufio.Scanner tolerates 100 of them in a row.  Such a read delivers nothing, so it is
+	// not part of the schedule the model sees (`got` records the reads that delivered data).
+	if c.stalled < c.stalls && len(p) > 0 {
+		c.stalled++
+		return 0, nil
+	}
+	c.stalled = 0
 	n := len(c.b)
 	if len(c.sizes) > 0 {
 		n = c.sizes[c.i%len(c.sizes)]
@@ -86,9 +96,15 @@ func (c *chunkReader) Read(p []byte) (int, error) {
 type sched struct {
 	sizes   []int
 	dataEOF bool
+	stalls  int
 }
 
-func (s sched) String() string { return fmt.Sprintf("%v/eof=%v", s.sizes, s.dataEOF) }
+func (s sched) String() string {
+	if s.stalls > 0 {
+		return fmt.Sprintf("%v/eof=%v/stalls=%d", s.sizes, s.dataEOF, s.stalls)
+	}
+	return fmt.Sprintf("%v/eof=%v", s.sizes, s.dataEOF)
+}
 
 type event struct {
 	data  []byte
@@ -143,7 +159,7 @@ func watchdog(f func()) bool {
 
 func decode(doc []byte, s sched) decRes {
 	var res decRes
-	cr := &chunkReader{b: append([]byte(nil), doc...), sizes: s.sizes, dataEOF: s.dataEOF}
+	cr := &chunkReader{b: append([]byte(nil), doc...), sizes: s.sizes, dataEOF: s.dataEOF, stalls: s.stalls}
 	ok := watchdog(func() {
 		defer func() {
 			if p := recover(); p != nil {
@@ -307,7 +323,7 @@ type splitRes struct {
 // split runs a real bufio.Scanner with styling.Scan() and logs every call.
 func split(doc []byte, s sched, limit int) splitRes {
 	var res splitRes
-	cr := &chunkReader{b: append([]byte(nil), doc...), sizes: s.sizes, dataEOF: s.dataEOF}
+	cr := &chunkReader{b: append([]byte(nil), doc...), sizes: s.sizes, dataEOF: s.dataEOF, stalls: s.stalls}
 	f := styling.Scan()
 	pos := 0
 	var pending []call
@@ -707,6 +723,9 @@ func genDoc(rnd *common.Rand, maxSym int) []byte {
 
 func genSched(rnd *common.Rand) sched {
 	s := sched{dataEOF: rnd.Chance(1, 3)}
+	if rnd.Chance(1, 5) {
+		s.stalls = 1 + rnd.Intn(3)
+	}
 	n := 1 + rnd.Intn(4)
 	for i := 0; i < n; i++ {
 		k := 1 + rnd.Intn(3)
@@ -841,7 +860,7 @@ func Run(r *common.Run) error {
 				}
 				s.dataEOF = f[4] == "1"
 				if f[1] == "dec" {
-					c.doc(doc, append([]sched{s}, stdScheds...), 1+len(stdScheds), "replay")
+					c.doc(doc, append(append([]sched{s}, stdScheds...), sched{sizes: s.sizes, dataEOF: s.dataEOF, stalls: 1}, sched{sizes: s.sizes, dataEOF: s.dataEOF, stalls: 3}), 1+len(stdScheds), "replay")
 				} else {
 					lim, _ := strconv.Atoi(f[5])
 					if lim == bufio.MaxScanTokenSize {
@@ -879,7 +898,7 @@ func Run(r *common.Run) error {
 	// 1. corpus of past witnesses and the repo's own test inputs
 	for _, s := range corpus {
 		d := []byte(s)
-		c.doc(d, stdScheds, len(stdScheds), "corpus")
+		c.doc(d, append(append([]sched(nil), stdScheds...), sched{sizes: []int{1}, stalls: 1}, sched{sizes: []int{3}, stalls: 3}, sched{sizes: []int{2, 1}, dataEOF: true, stalls: 2}), len(stdScheds), "corpus")
 		for _, sc := range []sched{{}, {sizes: []int{1}}, {sizes: []int{2}, dataEOF: true}} {
 			c.splitDoc(d, sc, 0)
 			c.splitDoc(d, sc, 8)
@@ -894,6 +913,7 @@ func Run(r *common.Run) error {
 
 	// 1c. nesting depth: documents generated from the grammar (nest.go)
 	c.nests()
+	c.quoteCost()
 
 	// 2. small scope, exhaustive: every document up to length L over the directive alphabet
 	// under every way of cutting it into reads, with and without EOF on the last read
@@ -1006,6 +1026,9 @@ func Run(r *common.Run) error {
 	}
 	if c.hung {
 		r.Notes = append(r.Notes, "a decode hung; the run was cut short")
+	} else if !r.Quick() {
+		// last: a decoder that does not finish keeps its goroutine busy until the process ends
+		c.deepQuote(40000)
 	}
 	r.Extra["decoder_split_calls_judged"] = c.judged
 	r.Extra["max_span_depth"] = c.maxSpanDepth
@@ -1022,6 +1045,87 @@ func Run(r *common.Run) error {
 // known=false: the shape was not recognised; unbounded=true: the limit is math.MaxInt or
 // more; otherwise n is the limit (bufio.MaxScanTokenSize when Buffer is never called).
 func DecoderLimit(repo string) (known, unbounded bool, n uint64) {
+	if known, unbounded, n = probeDecoderLimit(); known {
+		return known, unbounded, n
+	}
+	return decoderLimitAST(repo)
+}
+
+// probeDecoderLimit (round E, review C17-2a) asks the value, not the source: the Decoder the
+// real NewDecoder returns is searched (reflect, any field name, through pointers and nested
+// structs of package styling) for its *bufio.Scanner, whose token limit is read from the
+// scanner itself.  Where the Buffer call is written (NewDecoder, a helper, another file) and
+// how its argument is spelled does not matter.  known=false: no scanner or more than one, or
+// bufio.Scanner has no maxTokenSize field any more (then the source reader below is used).
+func probeDecoderLimit() (known, unbounded bool, n uint64) {
+	defer func() {
+		if recover() != nil {
+			known = false
+		}
+	}()
+	d := styling.NewDecoder(bytes.NewReader(nil))
+	var found []reflect.Value
+	seen := map[uintptr]bool{}
+	var walk func(v reflect.Value, depth int)
+	walk = func(v reflect.Value, depth int) {
+		if depth > 6 || !v.IsValid() {
+			return
+		}
+		switch v.Kind() {
+		case reflect.Ptr:
+			if v.IsNil() || seen[v.Pointer()] {
+				return
+			}
+			seen[v.Pointer()] = true
+			if v.Type() == reflect.TypeOf(&bufio.Scanner{}) {
+				found = append(found, v.Elem())
+				return
+			}
+			if v.Elem().Kind() == reflect.Struct {
+				walk(v.Elem(), depth+1)
+			}
+		case reflect.Struct:
+			if v.Type() == reflect.TypeOf(bufio.Scanner{}) {
+				found = append(found, v)
+				return
+			}
+			for i := 0; i < v.NumField(); i++ {
+				f := v.Field(i)
+				if f.CanAddr() {
+					f = reflect.NewAt(f.Type(), unsafe.Pointer(f.UnsafeAddr())).Elem()
+				}
+				walk(f, depth+1)
+			}
+		case reflect.Interface:
+			if !v.IsNil() {
+				walk(v.Elem(), depth+1)
+			}
+		}
+	}
+	walk(reflect.ValueOf(d), 0)
+	if len(found) != 1 {
+		return false, false, 0
+	}
+	f := found[0].FieldByName("maxTokenSize")
+	if !f.IsValid() || f.Kind() != reflect.Int {
+		return false, false, 0
+	}
+	v := f.Int()
+	if v >= math.MaxInt64>>1 {
+		return true, true, 0
+	}
+	if v < 0 {
+		return false, false, 0
+	}
+	// "the maximum token size is the larger of max and cap(buf)"
+	if b := found[0].FieldByName("buf"); b.IsValid() && b.Kind() == reflect.Slice && int64(b.Cap()) > v {
+		v = int64(b.Cap())
+	}
+	return true, false, uint64(v)
+}
+
+// decoderLimitAST: the source reader of the earlier rounds (fallback only).
+func decoderLimitAST(repo string) (known, unbounded bool, n uint64) {
 	fset := token.NewFileSet()
 	f, err := parser.ParseFile(fset, filepath.Join(repo, "styling", "styling.go"), nil, 0)
 	if err != nil {
